@@ -13,6 +13,19 @@ CHECKS = {
   design="3/C15"),
 }
 
+CHECKS["C13"] = dict(
+  level="exploration", engine="enum",
+  technique="bounded-exhaustive enumeration of path strings x bucket shapes x operations on the real buckets with sentinels, against a lexical reference model",
+  text="Every path string of 1..3 (thorough 4) components over {a . .. '' a.b ..a ...} with optional leading/trailing slash is applied with every operation (Get, Stat, Walk, Put, atomic Put, Delete, DeleteAll, CopyPath, Copy into a sub-view) to 14 bucket shapes (disk with/without symlink support, memory, prefix views of depth 1-2, chained mappers, filter, union, overlay, strip, limit), as tar/zip entry names with strip 0..2, and as plugin response file names; sentinels outside every root must stay byte-identical, no read may return sentinel data, and every name that the reference stack machine says escapes or is absolute must be rejected.",
+  note="Component alphabet and length are bounded; no symlinks pointing outside the root in the fixture; unix path semantics only.",
+  design="3/C13")
+CHECKS["C14"] = dict(
+  level="model_checking", engine="statex",
+  technique="explicit-state BFS over a reference map model; every transition replayed on fresh real buckets with a full observation menu; plus depth-bounded sequence enumeration",
+  text="All 256 states of the reference model (4-path prefix-free universe x {absent, empty, 1 byte, 70 KiB}) are reached by BFS with every operation of the alphabet; each of the model transitions is replayed on each of 12 writable implementations/combinators along the shortest model path and the complete observation menu (Get/Stat of 5 spellings per path, non-object paths, Walk of 10 prefixes incl. file-equal and string-prefix-colliding ones) is compared. Every model state is also materialised through tar/zip round trips, copies between kinds and filters; union/overlay duplicates are checked in every state.",
+  note="Universe is prefix-free (documented orphan-directory behaviour of the disk bucket is outside the quantifier); ObjectInfo.Path() is compared up to normalisation.",
+  design="3/C14")
+
 NOT_YET = {}
 
 def main():
@@ -47,7 +60,8 @@ def main():
         "engines": [
             {"name": "sched", "path": "internal/sched", "serves_properties": ["C02", "C09", "C15"], "kind_free_text": "cooperative controlled scheduler over verifhook points + deviation-bounded DFS over schedules and environment choices"},
             {"name": "fault", "path": "internal/wrap, internal/hook", "serves_properties": ["C09", "C15"], "kind_free_text": "fault/kill-point enumeration through wrapper buckets and storageos hook points"},
-            {"name": "enum", "path": "internal/enum", "serves_properties": [], "kind_free_text": "bounded-exhaustive generators (odometers, subsets, permutations, digraphs)"},
+            {"name": "statex", "path": "checks/c14", "serves_properties": ["C14"], "kind_free_text": "explicit-state BFS over a Go reference model, each transition replayed on a fresh real instance"},
+            {"name": "enum", "path": "internal/enum", "serves_properties": ["C13"], "kind_free_text": "bounded-exhaustive generators (odometers, subsets, permutations, digraphs)"},
         ],
         "checks": checks,
         "not_applicable": na,
